@@ -148,11 +148,15 @@ fn c_request(req: &str) -> String {
 
 // ---------------------------------------------------------------------------------------- open
 
+/// `open` / `open0`: the latter runs the two Rust opens with descriptor 0 closed (a client or daemon
+/// started without stdin: `open(2)` then legitimately returns 0)
 fn exec_open(toks: &[&str]) -> String {
+    let nofd0 = toks[0] == "open0";
     let (prior, _) = parse_prior(&toks[1..]);
     let path = seg_path();
     prepare(&path, &prior);
     let cpath = CString::new(path.clone()).unwrap();
+    let saved = if nofd0 { unsafe { let s = libc::dup(0); libc::close(0); s } } else { -1 };
     let r1 = match guarded(|| ShmReader::new(cpath.as_c_str()).map(|_| ())) {
         Ok(Ok(())) => "ok".to_string(),
         Ok(Err(e)) => shm_err_text(&e),
@@ -164,6 +168,7 @@ fn exec_open(toks: &[&str]) -> String {
         Ok(Err(e)) => client_err_text(&e),
         Err(_) => "panic".into(),
     };
+    if nofd0 { unsafe { libc::dup2(saved, 0); libc::close(saved); } }
     let r3 = c_request(&format!("copen {}", path));
     format!("{} ; {} ; {}", r1, r2, r3)
 }
@@ -313,7 +318,7 @@ fn exec_sandwich(toks: &[&str]) -> String {
 
 pub fn exec(toks: &[&str], _line: &str) -> Option<String> {
     match toks.first().copied() {
-        Some("open") => Some(exec_open(toks)),
+        Some("open") | Some("open0") => Some(exec_open(toks)),
         Some("seg") => Some(exec_seg(toks)),
         Some("snap") => Some(exec_snap(toks)),
         Some("sandwich") => Some(exec_sandwich(toks)),
@@ -447,6 +452,10 @@ pub fn random_prior(rng: &mut Rng) -> Prior {
 pub fn gen_open(seed: u64, count: usize) -> Vec<String> {
     let mut rng = Rng::new(seed ^ 0x16_0001);
     let mut v: Vec<String> = prior_grid(&mut rng).iter().map(|p| format!("open {}", p.text())).collect();
+    // the same opens by a process that has no descriptor 0
+    v.push(format!("open0 {}", Prior::File(segment(MAGIC0, MAGIC1, 72, 1, 2, &[1, 2, 3, 4, 5, 6, 7, 1])).text()));
+    v.push("open0 missing".to_string());
+    v.push(format!("open0 {}", Prior::File(vec![1, 2, 3]).text()));
     for _ in 0..count { v.push(format!("open {}", random_prior(&mut rng).text())); }
     v
 }
